@@ -518,6 +518,9 @@ fn across_files(ctx: &Ctx, p: &Prog, whole: &fw::BuildResult, feat: &str) {
         return;
     }
     let mut rng = Rng::for_case(fw::hash_str(&ir::print_canonical(&p.nodes)), 0xC09_F, 0);
+    if ctx.tier == fw::Tier::Thorough && rng.below(4) != 0 {
+        return;
+    }
     let a = rng.usize(n - 1);
     let b = a + 1 + rng.usize(n - a - 1);
     let part = ir::print_canonical(&p.nodes[a..b]);
